@@ -13,7 +13,7 @@ import regen_c20
 
 PID = "C06"
 HERE = os.path.dirname(os.path.abspath(__file__))
-WORKDIR = os.path.join(vlib.WORK, PID)
+WORKDIR = os.path.join(vlib.WORK, PID, "run")       # scratch (removed at exit); proposed_fix_*.diff live one level up
 THEOREMS = ["layouts_match_source", "iae_roundtrip", "header_roundtrip", "offsets_disjoint", "preset_offsets_disjoint",
             "entry_points_at_image", "entry_hash", "iv_is_plain_hash_and_decrypts", "signed_range", "srk_hash_of_exported_table",
             "verify_flags_each_field", "tamper_reserved_refuted", "reexport_normalises_header"]
@@ -480,7 +480,7 @@ def gen_cases(tier, rng, fams, extract, keys):
     S = {k: [] for k in ("valid configurations, automatic offsets", "explicit image offsets", "invalid configurations must be refused",
                          "signed containers, single-bit corruption", "container version 2 (oracles only)")}
     # A: valid, automatic offsets -- every (v1 family row class) x target memory at least once, all key types
-    n_a = 90 if thorough else 16
+    n_a = 90 if thorough else 26
     ks_cycle = [None] + KEYSETS
     for n in range(n_a):
         fx = v1_fams[(n * 5) % len(v1_fams)] if n >= len(v1_fams) or thorough else v1_fams[n % len(v1_fams)]
@@ -578,7 +578,7 @@ def gen_cases(tier, rng, fams, extract, keys):
         inv.append(mk(fx, "standard", [c], "selected-srk-revoked", None, v2=False))
     S["invalid configurations must be refused"] = inv
     # D: tamper
-    for n in range(6 if thorough else 2):
+    for n in range(6 if thorough else 3):
         fx = rng.choice(v1_fams)
         fi = extract["families"][fx]
         ks = ["ecc256", "rsa2048", "ecc521", "ecc384", "rsa3072", "ecc256"][n]
@@ -600,7 +600,7 @@ def gen_cases(tier, rng, fams, extract, keys):
         case["flips"] = flips
         S["signed containers, single-bit corruption"].append(case)
     # E: container version 2 -- implementation + oracles only (the Coq model covers the version 1 signature block)
-    for n in range(8 if thorough else 2):
+    for n in range(8 if thorough else 4):
         fx = v2_fams[n % len(v2_fams)]
         fi = extract["families"][fx]
         c = container(fi, 1 + n % 2, signed=[None, "ecc384", "ecc256", "rsa2048"][n % 4] if n else "ecc256")
